@@ -208,11 +208,40 @@ Proof.
       { apply (M5_merge hs he mUx m5x bc1 (pre ++ [x1]) x2 nxc post' ba1 HM1' Hnxnot); cbn [c_addr c_sz x2]; fold nxsz; fold rest'; fold nx2; unfold m5x.
         - mm. reflexivity.
         - mm. reflexivity.
-        - intros w W1 W2. mm. reflexivity. }
+        - intros w W1 W2 _ _. mm. reflexivity.
+        - rewrite Enxa. rewrite <- (unlink_own_unused _ _ _ _ _ _ _ _ HM3x Hbi Hnext). fold mUx.
+          apply is_used_frame; mm; try reflexivity; unfold nx2, rest', sp, rest, nx0, nxsz in *; lia. }
       cbn [c_used x2] in HM5x. set (x2' := mkchunk sp rest' false) in *.
       (* the concrete memory agrees with the virtual one on all header words of the final list *)
       assert (HM5 : MI hs he m5 bc1 ((pre ++ [x1]) ++ x2' :: post') ba1).
-      { apply (MI_ext hs he m5x m5 bc1 _ ba1 HM5x). intros h k Hh Hk. unfold m5, m5x.
+      { apply (MI_ext hs he m5x m5 bc1 _ ba1 HM5x).
+        2:{ (* the two memories differ at nx0 + 8 only, the prev_adj word of the absorbed header *)
+          intros n Hn _ Hu5.
+          assert (Hsame : forall w, w <> nx0 + 8 -> mget m5x w = mget m5 w).
+          { intros w Hw. unfold m5x, m5.
+            destruct (Z.eq_dec w (nx2 + 8)) as [-> | N1]; [mm; reflexivity|].
+            destruct (Z.eq_dec w sp) as [-> | N2]; [mm; reflexivity|].
+            mm. rewrite HUx. mm. reflexivity. }
+          destruct (Z.eq_dec (n + 24) (nx0 + 8)) as [E8 | N8].
+          - exfalso. apply is_used_true in Hu5 as [_ U2]. rewrite E8 in U2.
+            assert (Ew : mget m5 (nx0 + 8) = n_prev_adj m nx0).
+            { unfold m5. rewrite !mget_mset_other by (unfold nx2, rest', sp, rest, nx0, nxsz in *; lia).
+              unfold mU. destruct (mi_member_hdr _ _ _ _ _ _ HM bi nx0 Hbi Hnext) as (_ & _ & Hnok).
+              rewrite unlink_mem_frame.
+              - unfold n_prev_adj. apply Hm3; unfold sp, nx0 in *; lia.
+              - rewrite Elp. intros Hz. destruct Hlp as [? | [Hpin Hpne]]; [contradiction|]. destruct (Hmem32 _ Hpin Hpne); lia.
+              - rewrite Eln. intros Hz. destruct Hln as [? | [Hnin' Hnne]]; [contradiction|]. destruct (Hmem32 _ Hnin' Hnne); lia.
+              - exact Hnok.
+              - rewrite Elp. intros Hz. destruct Hlp as [? | [Hpin Hpne]]; [contradiction|].
+                destruct (mi_member_hdr _ _ _ _ _ _ HM bi _ Hbi Hpin) as (_ & _ & Hpok). split; assumption. }
+            rewrite Ew in U2.
+            assert (Hal0 : Forall (fun c => c mod 16 = 0) (map c_addr (pre ++ x :: nxc :: post'))).
+            { unfold aligned_chunks in Hal. rewrite Forall_forall in *. intros c Hc. apply in_map_iff in Hc. destruct Hc as (c0 & <- & Hc0). apply Hal. exact Hc0. }
+            pose proof (padj_aligned m he _ 0 eq_refl Hal0 (rp_padj _ _ _ _ _ Hrep) nx0) as Hx.
+            rewrite <- Enxa in Hx at 1. specialize (Hx (or_introl (in_map c_addr _ _ Hnin))).
+            rewrite U2 in Hx. rewrite cookie_mod in Hx. discriminate Hx.
+          - rewrite <- Hu5. apply is_used_frame; apply Hsame; [|exact N8]. Z.div_mod_to_equations. lia. }
+        intros h k Hh Hk. unfold m5, m5x.
         destruct (Z.eq_dec (h + k) (nx2 + 8)) as [-> | N1]; [mm; reflexivity|].
         destruct (Z.eq_dec (h + k) sp) as [-> | N2]; [mm; reflexivity|].
         mm. rewrite HUx.
@@ -350,7 +379,9 @@ Proof.
     { apply (M5_merge hs he m1 m3 bc1 pre x nx post' ba1 HM1 Hnxnot); fold a; fold nxsz; unfold m3, msz.
       - mm. lia.
       - replace (a + NODE + (c_sz x + NODE + nxsz) + 8) with (a + NODE + (c_sz x + nxsz + NODE) + 8) by lia. mm. reflexivity.
-      - intros w W1 W2. rewrite mget_mset_other by lia. rewrite mget_mset_other by lia. reflexivity. }
+      - intros w W1 W2 _ _. rewrite mget_mset_other by lia. rewrite mget_mset_other by lia. reflexivity.
+      - fold nxa. rewrite <- (unlink_own_unused _ _ _ _ _ _ _ _ HM Hbi Hnbin). fold m1.
+        apply is_used_frame; rewrite !mget_mset_other by (unfold nxa in *; lia); reflexivity. }
     rewrite Hu in HMg. fold nxsz in HMg.
     replace (c_sz x + NODE + nxsz) with msz in HMg by (unfold msz; lia).
     set (x' := mkchunk a msz true) in *.
